@@ -56,7 +56,9 @@ Paths(e) ==
     [] e = "dl.items.items"           -> {<<T("dl", TRUE), I(TRUE), I(TRUE)>>}
     [] e = "csnap"                    -> {<<T("csnap", TRUE)>>}       \* observed properties of the root (C12)
     [] e = "chv"                      -> {<<T("chv", TRUE)>>}
-Exprs == {"csnap", "chv", "d.items", "kids:items.value", "value", "child.value", "child:value", "child.child.value", "kids.items.value", "kids:items:value",
+    [] e = "cfirst"                   -> {<<T("cfirst", TRUE)>>}
+    [] e = "dlsnap"                   -> {<<T("dlsnap", TRUE)>>}
+Exprs == {"csnap", "chv", "cfirst", "dlsnap", "d.items", "kids:items.value", "value", "child.value", "child:value", "child.child.value", "kids.items.value", "kids:items:value",
           "child.kids.items.value", "[child,kids.items].value", "kids.items.child.value", "d.items.value",
           "child.d:items.value", "+tracked.value", "+tracked:kids.items", "+ltracked:items.value", "child.*", "kids.items",
           "child", "s.items.value", "s.items", "child.s:items.value", "dl.items.items.value", "dl.items.items"}
@@ -148,6 +150,13 @@ Mutate(h, m) ==
                                              [] m.op = "delitem" -> DLDel(@, m.a[1])         \* (absent key: KeyError, no change)
                                              [] m.op = "clear" -> <<>>]
     [] m.t = "dlin" -> IF InnerOK(h, m) THEN [h EXCEPT !.dl[m.x] = DLPut(@, m.a[4], MutInner(h, m).post)] ELSE h
+    \* del obj.<link> (also reset_traits): the attribute is back at its default - None, a FRESH empty container - which
+    \* takes the place of the former value in every observed path
+    [] m.t = "del" -> (CASE m.op = "child" -> [h EXCEPT !.child[m.x] = NoneO]
+                         [] m.op = "kids"  -> [h EXCEPT !.kids[m.x] = <<>>]
+                         [] m.op = "d"     -> [h EXCEPT !.d[m.x] = <<>>]
+                         [] m.op = "s"     -> [h EXCEPT !.s[m.x] = {}]
+                         [] m.op = "dl"    -> [h EXCEPT !.dl[m.x] = <<>>])
     [] m.t = "addx" -> [h EXCEPT !.hasx[m.x] = 1]                              \* add_trait("extra", ...) on object m.x
     [] m.t = "xv" -> [h EXCEPT !.xv[m.x] = @ + 1]                              \* obj.extra += 1
 \* the observable a mutation hits, and whether it is a real change (must notify) / may notify
@@ -158,6 +167,7 @@ Hit(m) == CASE m.t = "child" -> <<"trait", m.x, "child">> [] m.t = "kidsassign" 
             [] m.t = "dlassign" -> <<"trait", m.x, "dl">> [] m.t = "dl" -> <<"M", m.x>> [] m.t = "dlin" -> Inner(m.x, m.a[4])
             [] m.t = "addx" -> <<"trait", m.x, "trait_added">>
             [] m.t = "xv" -> <<"trait", m.x, "extra">>
+            [] m.t = "del" -> <<"trait", m.x, m.op>>
 IsChange(h, m) ==
   CASE m.t = "child" -> TRUE                                     \* comparison mode none: every assignment
     [] m.t = "kidsassign" -> h.kids[m.x] # m.xs                   \* equality mode: an equal list is no change
@@ -172,16 +182,27 @@ IsChange(h, m) ==
     [] m.t = "dlin" -> InnerOK(h, m) /\ MutInner(h, m).post # DLGet(h.dl[m.x], m.a[4])
     [] m.t = "addx" -> TRUE                     \* an Event: every firing is a change
     [] m.t = "xv" -> TRUE
+    \* a deletion is a change from the former value to the default (whether deleting a value equal to the default
+    \* notifies is left open)
+    [] m.t = "del" -> (CASE m.op = "child" -> h.child[m.x] # NoneO [] m.op = "kids" -> h.kids[m.x] # <<>>
+                         [] m.op = "d" -> h.d[m.x] # <<>> [] m.op = "s" -> h.s[m.x] # {} [] m.op = "dl" -> h.dl[m.x] # <<>>)
 \* container operations that change nothing may still emit an identity event (C05/C06 leave it open)
 \* (sets: operations that change nothing are silent - C07; storing an equal list under an existing key of dl is a dict event)
 MayNotify(h, m) == IsChange(h, m) \/ (m.t \in {"kids", "d"} /\ (IF m.t = "kids" THEN MutKids(h, m) ELSE MutD(h, m)).excs = {""})
                    \/ (m.t = "dl" /\ m.op = "setitem") \/ (m.t = "dlin" /\ MutInner(h, m).excs = {""})
+                   \/ m.t = "del"
 
 \* ---- observed properties (C12): name -> dependency expression; value computed from the heap
-Props == {"csnap", "chv"}
-DepOf(p) == IF p = "csnap" THEN "kids.items.value" ELSE "child.value"
+\* cfirst: a CACHED property whose value is None (-2 here) while the root has no child - "not computed yet" and
+\* "computed: None" are different things
+\* dlsnap: a cached property over the nested container (the keys of dl with the lists stored under them)
+Props == {"csnap", "chv", "cfirst", "dlsnap"}
+CachedProps == {"csnap", "cfirst", "dlsnap"}
+DepOf(p) == IF p = "csnap" THEN "kids.items.value" ELSE IF p = "dlsnap" THEN "dl.items.items" ELSE "child.value"
 ValOf(h, x) == IF x = NoVal THEN -1 ELSE h.vals[x]
 PropValue(h, p) == IF p = "csnap" THEN [i \in 1..Len(h.kids[Root]) |-> <<h.kids[Root][i], ValOf(h, h.kids[Root][i])>>]
+                   ELSE IF p = "dlsnap" THEN h.dl[Root]
+                   ELSE IF p = "cfirst" THEN (IF h.child[Root] = NoneO THEN <<-2>> ELSE <<ValOf(h, h.child[Root])>>)
                    ELSE IF h.child[Root] = NoneO THEN <<>> ELSE <<h.child[Root], ValOf(h, h.child[Root])>>
 \* a mutation is relevant to a property iff it hits an observable its dependency expression covers with notify
 Relevant(h, p, m) == Hit(m) \in Notifying(h, DepOf(p))
